@@ -5,6 +5,13 @@ from pyvc.props import PROPS, LEVEL_TEXT, LEVEL_NOTE
 V = os.path.dirname(os.path.dirname(os.path.abspath(__file__)))
 ids = [json.loads(l)['id'] for l in open(os.path.join(V, 'properties.jsonl'))]
 NA = {
+    'C08': 'The property quantifies over pre-emption points of the real background thread relative to the receive thread (schedules of two '
+           'OS threads sharing the session tables without locks). Per-call contracts decide one call of one function on one thread; the '
+           'interference mode sketched in DESIGN.md 2.7 (havoc of the shared tables at every statement boundary under a rely condition) '
+           'was not built, and without it no contract within reach expresses "the same outcome wherever the thread is suspended". What '
+           'the contracts do establish and C08 would build on is reported under C01/C02/C07 (state advanced before the frame is handed to '
+           'the bus, the pass iterates over snapshots of the keys, every handler preserves the class invariant from any state satisfying '
+           'it). No other technique is substituted.',
 }
 checks = []
 for pid in ids:
